@@ -57,6 +57,14 @@ class RevokeStream(Stream):
             "every CRL written to storage is parsed as well.  non-trivial = operation did not end in an error class; "
             "distinct = distinct operation line (ordinals, classes, cut position and observed write prefix)")
 
+    def norm_model(self, op, model):
+        # a fault the code swallows (e.g. the read of the legacy certificate path) followed by a request that fails for
+        # its OWN reason (serial not found): the harness cannot tell whose error it is and writes no ` w=` field for an
+        # error under a fault; the writes are in the op line's trace field either way (thorough sweep, seed 3)
+        if "\tfault\t" in op and model.startswith("err:") and " w=" in model:
+            return model.split(" w=", 1)[0]
+        return model
+
     def nontrivial(self, op, impl):
         return not impl.startswith("err") and impl != "bad-op" and not op.startswith("obs")
 
